@@ -1053,10 +1053,20 @@ func (u *Unit) execRange(st *State, x *ast.RangeStmt) *State {
 		mods := u.discover(st, func(s *State) []*State {
 			k := u.fresh("k", ks)
 			bindIter(s, k)
+			s.ghost[vname] = Val{T: u.fresh("visited", setSort), So: setSort}
 			ft, fr := runBody(s)
 			return continues(ft, fr)
 		})
 		mods.vars = dropObjs(mods.vars, keyObj, valObj)
+		{
+			var gs []string
+			for _, g := range mods.ghost {
+				if g != vname {
+					gs = append(gs, g)
+				}
+			}
+			mods.ghost = gs
+		}
 		empty := fmt.Sprintf("((as const %s) false)", setSort)
 		u.checkInvs(ls, n, "inv.init", u.loopEnv(st, scope, pos, extra(empty)), st, x.Pos())
 		head := st.clone()
@@ -1071,6 +1081,7 @@ func (u *Unit) execRange(st *State, x *ast.RangeStmt) *State {
 		k := u.fresh("key", ks)
 		body.assume(sAnd(app("select", dom, k), sNot(app("select", vis, k))))
 		bindIter(body, k)
+		body.ghost[vname] = Val{T: vis, So: setSort} // visible to the invariants of nested loops
 		ft, fr := runBody(body)
 		if arms := continues(ft, fr); len(arms) > 0 {
 			j, _ := u.joinN(body, arms, nil)
